@@ -426,6 +426,12 @@ class CallMixin:
         return [('ok', st, sv_bool(Z.subclass(ta, self.class_ref(st, b))))]
 
     def b_type(self, st, args):
+        if len(args.pos) == 3:
+            # type(name, bases, dict): dynamic class creation, an opaque library primitive (may raise, e.g. on an MRO conflict)
+            s2 = st.fork()
+            for a in args.pos:
+                self.publish(s2, a)
+            return self.prim(s2, 'ext!type3', list(args.pos))
         v = args.pos[0]
         sc = self.static_class(st, v)
         if sc is not None and sc != 'function':
